@@ -85,6 +85,25 @@ class CutScn:
                 if c:
                     pipe.cut_at = pipe.total + ks[c - 1]
                 S.ctx["k"] = ks[c - 1] if c else None
+            def probe(ci, who):
+                """right after the loss was observed on a channel: new conversations must be refused,
+                and whatever is still handed out must not hang"""
+                for name, fn in (("newchannel", gw.newchannel), ("remote_exec", lambda: gw.remote_exec("pass"))):
+                    try:
+                        c2 = fn()
+                    except OSError:
+                        w.observe("probe", ci, who, name, "OSError")
+                        continue
+                    except BaseException as e:  # noqa: BLE001
+                        w.observe("probe", ci, who, name, type(e).__name__)
+                        continue
+                    try:
+                        c2.receive(timeout=30)
+                        res = "item"
+                    except BaseException as e:  # noqa: BLE001
+                        res = type(e).__name__
+                    w.observe("probe", ci, who, name, "handed-out", res)
+
             for ci, n in P["receivers"].items():
                 for r in range(n):
 
@@ -96,6 +115,7 @@ class CutScn:
                                 got.append(ch.receive())
                         except EOFError:
                             w.observe("recv", ci, r, got, "EOFError")
+                            probe(ci, f"r{r}")
                         except BaseException as e:  # noqa: BLE001
                             w.observe("recv", ci, r, got, type(e).__name__, str(e)[:80])
                         try:
@@ -117,6 +137,8 @@ class CutScn:
                             w.observe("waitclose", ci, r, "returned")
                         except BaseException as e:  # noqa: BLE001
                             w.observe("waitclose", ci, r, type(e).__name__)
+                            if isinstance(e, EOFError):
+                                probe(ci, f"w{r}")
 
                     S.user(wc, f"wait{ci}.{r}")
             if P.get("callback") is not None:
@@ -234,6 +256,14 @@ class CutScn:
             inf = [e for e in obs if e[0] == "inflight"]
             if not inf or inf[0][1] != "EOFError":
                 return V("wrong-exception", f"receive on the in-flight remote_exec channel: {inf}")
+        for e in obs:
+            if e[0] == "probe":
+                if e[4] == "handed-out" and e[5] != "EOFError":
+                    return V("new-channel-hangs", f"{e[3]}() called right after the loss was observed on channel {e[1]} handed out a channel whose receive ended with {e[5]} (it is never closed)")
+                if e[4] == "handed-out" and e[1] not in closed_clean:
+                    return V("not-refused-after-loss-observed", f"{e[3]}() succeeded although channel {e[1]} had already reported the connection loss (EOFError)")
+                if e[4] not in ("OSError", "handed-out"):
+                    return V("wrong-exception", f"{e[3]}() after connection loss raised {e[4]}")
         aft = [e for e in obs if e[0] == "after"]
         if not aft:
             return V("hang", "post-cut probes did not run")
